@@ -392,6 +392,9 @@ M("C12", "astar_hyp: count forgets separator", PL, """            char *wstr = d
                 len += strlen(wstr) + 1;""", """            char *wstr = dict_wordstr(search_module_dict(search), p->node->basewid);
             if (wstr != NULL)
                 len += strlen(wstr);""", "TWIN.P6-hyp-passes")
+M("C12", "astar: popped path recycled when agenda length unchanged", PL, "            if (nbest->top->node->fef < nbest->ef)\n                path_extend(nbest, nbest->top);", "            int32 n_path = nbest->n_path;\n            if (nbest->top->node->fef < nbest->ef)\n                path_extend(nbest, nbest->top);\n            if (nbest->n_path == n_path)\n                listelem_free(nbest->latpath_alloc, nbest->top);", "OWN.P7-path-lifetime")
+M("C12", "astar: extension frees its parent", PL, "        newpath->parent = path;", "        newpath->parent = path;\n        if (x->next == NULL)\n            listelem_free(nbest->latpath_alloc, path);", "OWN.P7-path-lifetime")
+M("C12", "benign: rejected child released through a temporary", PL, "                listelem_free(nbest->latpath_alloc, newpath);", "                { latpath_t *dead = newpath; listelem_free(nbest->latpath_alloc, dead); }", kind="benign")
 M("C12", "benign: key operands swapped", PL, "        total_score = newpath->score + newpath->node->info.rem_score;", "        total_score = newpath->node->info.rem_score + newpath->score;", kind="benign")
 
 FM = "src/fsg_model.c"
